@@ -122,6 +122,16 @@ func main() {
 			}
 		}
 	}
+	// bracket groups assembled from every sequence of bracket tokens, where all derivations agree on the meaning (as C02)
+	nb := 3
+	if !r.Quick() {
+		nb = 4
+	}
+	rx.BracketSpace(nb, func(a *regexref.Atom) { check(rx.AtomExpr(a), "bracket_contents") })
+	r.Set("bound_bracket_tokens", nb)
+	if !r.Quick() {
+		rx.DeepSpace(check)
+	}
 	r.Assume("same reference and alphabet as C02; ast.ToDFA state numbering is ignored (language comparison only)")
 	r.Finish()
 }
